@@ -2,7 +2,6 @@ package main
 
 import (
 	"fmt"
-	"go/ast"
 	"go/constant"
 	"go/token"
 	"go/types"
@@ -782,10 +781,15 @@ func (p *Program) sameSeq(a, b ssa.Value) bool {
 // TOKEN-KINDS (AST)
 // ---------------------------------------------------------------------------
 
+// TOKEN-KINDS on values: the kinds (constants of type tokenType) a token can have where it is appended to the
+// pattern handed to addVariable are found by deciding, kind by kind, every branch condition over that token's
+// .typ and asking whether the append is still reachable; the kinds variable.index handles are those for which its
+// panic is unreachable in the same sense. A switch with merged cases, an if chain and a bit-mask test
+// (`typ&allowed == 0`) are all the same to this evaluation.
 func ruleTokenKinds(r *Run) {
 	p := r.P
-	idx := p.FuncDecl("variable", "index")
-	add := p.FuncDecl("path", "addRule")
+	idx := p.Method("variable", "index")
+	add := p.Method("path", "addRule")
 	if idx == nil {
 		r.missing("method (*variable).index")
 		return
@@ -794,146 +798,286 @@ func ruleTokenKinds(r *Run) {
 		r.missing("method (*path).addRule")
 		return
 	}
-	info := p.Lark.TypesInfo
-	// allowed kinds = case constants of the switch over <tok>.typ in variable.index whose body does not panic
-	allowed := map[string]bool{}
-	ast.Inspect(idx.Body, func(n ast.Node) bool {
-		sw, ok := n.(*ast.SwitchStmt)
-		if !ok || sw.Tag == nil {
-			return true
+	typF := p.StructField("token", "typ")
+	tokenT := p.NamedType("token")
+	// all kinds
+	kinds := map[int64]string{}
+	scope := p.Lark.Types.Scope()
+	for _, n := range scope.Names() {
+		c, ok := scope.Lookup(n).(*types.Const)
+		if !ok {
+			continue
 		}
-		if sel, ok := sw.Tag.(*ast.SelectorExpr); !ok || sel.Sel.Name != "typ" {
-			return true
+		if nm := namedOf(c.Type()); nm == nil || nm.Obj().Name() != "tokenType" {
+			continue
 		}
-		for _, c := range sw.Body.List {
-			cc := c.(*ast.CaseClause)
-			for _, e := range cc.List {
-				if v := constOf(p.Lark, e); v != nil {
-					allowed[v.ExactString()] = true
-				}
-			}
+		// kinds are the single-bit values (and 0) the lexer emits; unions of kinds declared as constants are masks
+		if k, exact := constant.Int64Val(constant.ToInt(c.Val())); exact && k >= 0 && k&(k-1) == 0 {
+			kinds[k] = n
 		}
-		return true
-	})
-	if len(allowed) == 0 {
-		r.undecided("(*variable).index/switch", idx.Pos(), "no switch over a token kind found")
+	}
+	if len(kinds) == 0 || typF == nil || tokenT == nil {
+		r.missing("token kinds (constants of type tokenType) / field token.typ")
 		return
 	}
-	// in addRule: every append whose result is assigned to the variable later passed to addVariable
-	// find the identifiers passed to addVariable
-	varsObjs := map[types.Object]bool{}
-	ast.Inspect(add.Body, func(n ast.Node) bool {
-		call, ok := n.(*ast.CallExpr)
-		if !ok {
-			return true
-		}
-		if sel, ok := call.Fun.(*ast.SelectorExpr); ok && sel.Sel.Name == "addVariable" && len(call.Args) == 1 {
-			if id, ok := call.Args[0].(*ast.Ident); ok {
-				varsObjs[info.Uses[id]] = true
+	// typOf: is v the .typ of token value tok (a struct value or the address of one)?
+	isTypOf := func(v, tok ssa.Value) bool {
+		switch x := v.(type) {
+		case *ssa.Field:
+			st, ok := x.X.Type().Underlying().(*types.Struct)
+			return ok && st.Field(x.Field) == typF && (x.X == tok || p.sameValue(x.X, tok))
+		case *ssa.UnOp:
+			if x.Op != token.MUL {
+				return false
+			}
+			fa, ok := x.X.(*ssa.FieldAddr)
+			if !ok || fieldOfAddr(fa) != typF {
+				return false
+			}
+			if fa.X == tok || p.sameValue(fa.X, tok) {
+				return true
+			}
+			// tok is a load of the cell whose field is addressed
+			if lu, ok := tok.(*ssa.UnOp); ok && lu.Op == token.MUL && (lu.X == fa.X || p.sameValue(lu.X, fa.X)) {
+				return true
 			}
 		}
-		return true
+		return false
+	}
+	var evalInt func(v, tok ssa.Value, k int64, d int) (int64, bool)
+	evalInt = func(v, tok ssa.Value, k int64, d int) (int64, bool) {
+		if d > 8 {
+			return 0, false
+		}
+		if isTypOf(v, tok) {
+			return k, true
+		}
+		if c, ok := constInt(v); ok {
+			return c, true
+		}
+		switch x := v.(type) {
+		case *ssa.Convert:
+			return evalInt(x.X, tok, k, d+1)
+		case *ssa.ChangeType:
+			return evalInt(x.X, tok, k, d+1)
+		case *ssa.BinOp:
+			a, ok1 := evalInt(x.X, tok, k, d+1)
+			b, ok2 := evalInt(x.Y, tok, k, d+1)
+			if !ok1 || !ok2 {
+				return 0, false
+			}
+			bl := func(t bool) (int64, bool) {
+				if t {
+					return 1, true
+				}
+				return 0, true
+			}
+			switch x.Op {
+			case token.AND:
+				return a & b, true
+			case token.OR:
+				return a | b, true
+			case token.EQL:
+				return bl(a == b)
+			case token.NEQ:
+				return bl(a != b)
+			case token.LSS:
+				return bl(a < b)
+			case token.GTR:
+				return bl(a > b)
+			case token.LEQ:
+				return bl(a <= b)
+			case token.GEQ:
+				return bl(a >= b)
+			}
+		case *ssa.UnOp:
+			if x.Op == token.NOT {
+				a, ok := evalInt(x.X, tok, k, d+1)
+				return 1 - a, ok
+			}
+		}
+		return 0, false
+	}
+	// reachable(fn, target, tok, k): is target reachable when every condition over tok.typ is decided for kind k?
+	reachable := func(fn *ssa.Function, target ssa.Instruction, tok ssa.Value, k int64) bool {
+		q := pathQuery{fn: fn, target: func(x ssa.Instruction) bool { return x == target },
+			edgeOK: func(b *ssa.BasicBlock, succ int) bool {
+				ifi := blockIf(b)
+				if ifi == nil {
+					return true
+				}
+				v, ok := evalInt(ifi.Cond, tok, k, 0)
+				if !ok {
+					return true
+				}
+				return (v != 0) == (succ == 0)
+			}}
+		w, _ := q.find()
+		return w != nil
+	}
+	// (1) kinds variable.index handles: its panic is unreachable for a template token of that kind
+	var panics []ssa.Instruction
+	var tmplToks []ssa.Value
+	eachInstr(idx, func(in ssa.Instruction) {
+		if pn, ok := in.(*ssa.Panic); ok {
+			panics = append(panics, pn)
+		}
+		// the template token under the switch: any value of type token whose .typ is read
+		switch x := in.(type) {
+		case *ssa.Field:
+			if st, ok := x.X.Type().Underlying().(*types.Struct); ok && st.Field(x.Field) == typF {
+				tmplToks = append(tmplToks, x.X)
+			}
+		case *ssa.FieldAddr:
+			if fieldOfAddr(x) == typF {
+				tmplToks = append(tmplToks, x.X)
+			}
+		}
+	})
+	allowed := map[int64]bool{}
+	if len(panics) == 0 {
+		for k := range kinds {
+			allowed[k] = true
+		}
+	} else {
+		for k := range kinds {
+			can := false
+			for _, pn := range panics {
+				// the panic is reachable for kind k if it is for every candidate token (conditions on other tokens stay open)
+				all := true
+				for _, t := range tmplToks {
+					if !reachable(idx, pn, t, k) {
+						all = false
+					}
+				}
+				if all {
+					can = true
+				}
+			}
+			if !can {
+				allowed[k] = true
+			}
+		}
+	}
+	if len(allowed) == 0 || len(allowed) == len(kinds) && len(panics) > 0 {
+		r.undecided("(*variable).index/handled-kinds", idx.Pos(), "could not separate the token kinds variable.index handles from those it panics on")
+		return
+	}
+	var names []string
+	for k := range allowed {
+		names = append(names, kinds[k])
+	}
+	sort.Strings(names)
+	r.ok("(*variable).index/handled-kinds", idx.Pos(), "handles %s; panics on every other kind", strings.Join(names, ", "))
+	// (2) every token appended to a list that is handed to addVariable
+	var lists []ssa.Value
+	p.eachInstrR(add, func(in ssa.Instruction) {
+		if c, ok := in.(*ssa.Call); ok && calleeName(c) == "(*larking.io/larking.path).addVariable" && len(c.Call.Args) == 2 {
+			lists = append(lists, p.origins(c.Call.Args[1], originOpts{throughAppend: true, throughSlice: true})...)
+		}
 	})
 	site := 0
-	var stack []ast.Node
-	ast.Inspect(add.Body, func(n ast.Node) bool {
-		if n == nil {
-			stack = stack[:len(stack)-1]
-			return true
-		}
-		stack = append(stack, n)
-		call, ok := n.(*ast.CallExpr)
-		if !ok {
-			return true
-		}
-		fid, ok := call.Fun.(*ast.Ident)
-		if !ok || fid.Name != "append" || len(call.Args) < 2 {
-			return true
-		}
-		if _, isBuiltin := info.Uses[fid].(*types.Builtin); !isBuiltin {
-			return true
-		}
-		dst, ok := call.Args[0].(*ast.Ident)
-		if !ok || !varsObjs[info.Uses[dst]] {
-			return true
-		}
-		for _, arg := range call.Args[1:] {
-			site++
-			key := fmt.Sprintf("(*path).addRule/append-to-pattern#%d", site)
-			// (a) literal token with constant kind
-			if cl, ok := arg.(*ast.CompositeLit); ok {
-				good := false
-				for _, el := range cl.Elts {
-					if kv, ok := el.(*ast.KeyValueExpr); ok {
-						if k, ok := kv.Key.(*ast.Ident); ok && k.Name == "typ" {
-							if v := constOf(p.Lark, kv.Value); v != nil && allowed[v.ExactString()] {
-								good = true
-							}
+	for _, n := range p.rootedRegion(add) {
+		n := n
+		eachInstr(n.fn, func(in ssa.Instruction) {
+			c, ok := in.(*ssa.Call)
+			if !ok {
+				return
+			}
+			if b, isB := c.Call.Value.(*ssa.Builtin); !isB || b.Name() != "append" || len(c.Call.Args) < 2 {
+				return
+			}
+			st, ok := c.Type().Underlying().(*types.Slice)
+			if !ok || namedOf(st.Elem()) != tokenT {
+				return
+			}
+			// does this append feed addVariable's argument?
+			feeds := false
+			for _, l := range lists {
+				if l == ssa.Value(c) {
+					feeds = true
+				}
+				for _, o := range p.origins(c, originOpts{throughAppend: true, throughSlice: true}) {
+					if o == l {
+						feeds = true
+					}
+				}
+			}
+			if !feeds {
+				// same variable: the append's destination shares an origin with a list handed to addVariable
+				for _, o := range p.origins(c.Call.Args[0], originOpts{throughAppend: true, throughSlice: true}) {
+					for _, l := range lists {
+						if o == l {
+							feeds = true
 						}
 					}
 				}
-				r.check(good, key, arg.Pos(), "literal token of a handled kind", "literal token whose kind variable.index does not handle")
-				continue
 			}
-			// (b) identifier whose kind is constrained by an enclosing case clause of a switch on <id>.typ
-			id, ok := arg.(*ast.Ident)
-			if !ok {
-				r.undecided(key, arg.Pos(), "appended token is neither a literal nor an identifier")
-				continue
+			if !feeds {
+				return
 			}
-			obj := info.Uses[id]
-			good, why := false, "the token is appended whatever its kind: a nested '{', '=' , '.' or identifier token ends up in the pattern and variable.index panics on it at request time"
-			for i := len(stack) - 1; i >= 0; i-- {
-				cc, ok := stack[i].(*ast.CaseClause)
-				if !ok || i == 0 {
-					continue
-				}
-				// parent switch
-				var sw *ast.SwitchStmt
-				for j := i - 1; j >= 0; j-- {
-					if s, ok := stack[j].(*ast.SwitchStmt); ok {
-						sw = s
-						break
+			// the appended values themselves (the packed variadic arguments), not what they were assigned from
+			var els []ssa.Value
+			if sl, ok := c.Call.Args[1].(*ssa.Slice); ok {
+				els = variadicElems(sl.X)
+			}
+			if len(els) == 0 {
+				els = []ssa.Value{c.Call.Args[1]}
+			}
+			for _, el := range els {
+				site++
+				key := fmt.Sprintf("(*path).addRule/append-to-pattern#%d", site)
+				var bad []string
+				nposs := 0
+				for k, name := range kinds {
+					// a literal token{typ: K}: its kind is K
+					lit := false
+					if lu, ok := el.(*ssa.UnOp); ok && lu.Op == token.MUL {
+						if al, ok := lu.X.(*ssa.Alloc); ok && al.Comment == "complit" && al.Referrers() != nil {
+							for _, ref := range *al.Referrers() {
+								fa, ok := ref.(*ssa.FieldAddr)
+								if !ok || fieldOfAddr(fa) != typF || fa.Referrers() == nil {
+									continue
+								}
+								for _, r2 := range *fa.Referrers() {
+									if st, ok := r2.(*ssa.Store); ok {
+										lit = true
+										if kk, ok := constInt(st.Val); ok && kk == k {
+											nposs++
+											if !allowed[k] {
+												bad = append(bad, name)
+											}
+										}
+									}
+								}
+							}
+						}
+					}
+					if lit {
+						continue
+					}
+					if reachable(n.fn, in, el, k) {
+						nposs++
+						if !allowed[k] {
+							bad = append(bad, name)
+						}
 					}
 				}
-				if sw == nil || sw.Tag == nil {
-					continue
+				sort.Strings(bad)
+				switch {
+				case nposs == 0:
+					r.undecided(key, in.Pos(), "no possible kind found for the appended token")
+				case len(bad) > 0:
+					r.bad(key, in.Pos(), "the token appended to the variable pattern can be of kind %s, which variable.index does not handle: it ends up in the pattern and variable.index panics on it at request time (the token is appended whatever its kind, or the kind test admits too much)", strings.Join(bad, ", "))
+				default:
+					r.ok(key, in.Pos(), "every kind the appended token can have here is handled by variable.index")
 				}
-				sel, ok := sw.Tag.(*ast.SelectorExpr)
-				if !ok || sel.Sel.Name != "typ" {
-					continue
-				}
-				x, ok := sel.X.(*ast.Ident)
-				if !ok || info.Uses[x] != obj {
-					continue
-				}
-				if cc.List == nil {
-					why = "the append sits in the default arm of the kind switch"
-					break
-				}
-				all := true
-				for _, e := range cc.List {
-					v := constOf(p.Lark, e)
-					if v == nil || !allowed[v.ExactString()] {
-						all = false
-						why = "the enclosing case admits a kind variable.index does not handle"
-					}
-				}
-				good = all
-				break
 			}
-			if good {
-				r.ok(key, arg.Pos(), "appended only under a case that lists kinds variable.index handles (%d kinds)", len(allowed))
-			} else {
-				r.bad(key, arg.Pos(), "%s", why)
-			}
-		}
-		return true
-	})
-	if site == 0 {
-		r.undecided("(*path).addRule/append-to-pattern", add.Pos(), "no append to the pattern passed to addVariable found")
+		})
 	}
-	_ = constant.Int
+	if site == 0 {
+		r.undecided("(*path).addRule/append-to-pattern", add.Pos(), "no append to a list handed to addVariable found")
+	}
 }
 
 // ---------------------------------------------------------------------------
